@@ -89,8 +89,11 @@ fn assign_kinds(app: &mut AppDesc, rng: &mut Rng, prefix_params: usize) {
     }
 }
 
-const PARAM_VALUES: [&str; 24] = [
+// values next to the separator in byte value ('.' = '/' - 1, '0' = '/' + 1) at the end of a segment, and values longer than a machine word,
+// are there for scans that find the next '/' a word at a time
+const PARAM_VALUES: [&str; 32] = [
     "1", "abc", "users2", "user", "use", "%41", "a%2Fb", "x.y", "..", ".", "%E3%81%82", "a+b", "a:b", ":id", "~", "a;b", "a=b&c", "index.html", "A", "0", "-", "_", "%2e%2e", "a%20b",
+    "v1.", "archive...", "a.", "x0", "0.", "abcdefg.", "abcdefgh.", "1234567",
 ];
 
 #[derive(Clone, Debug)]
